@@ -607,6 +607,32 @@ Proof.
   - destruct INV as (e & E & <-). ev. rewrite E. reflexivity.
 Qed.
 
+(* ---------- date_parse with a custom parse format (--parse-format) ---------- *)
+(* the operator object with a custom parse format: the text is read by strptime with that format alone (the
+   time.strptime fall-back is reached only for a format with a directive outside the table, excluded here), and
+   the point is converted to UTC exactly in utc mode *)
+Definition self_pf (utc : bool) (fmt : string) : pyOper xp dur := mkOper11 (VStr fmt) (VBool utc) VNone.
+
+Theorem gen11_date_parse_custom md utc local text fmt :
+  fmt_supported fmt = true -> String.eqb text "ref" = false -> String.eqb text "now" = false ->
+  py_date_parse (mops md utc local) (self_pf utc fmt) (VStr text) =
+  match m_tp_strptime md utc local text fmt with
+  | Ret p => if utc then match m_to_utc md p with Ret q => Ret (VTuple [VPoint q; VStr fmt]) | Raise e => Raise e end
+             else Ret (VTuple [VPoint p; VStr fmt])
+  | Raise e => Raise e
+  end.
+Proof.
+  intros S R N. unfold py_date_parse, self_pf. try code11_helpers_unfold.
+  set (SP := py_strptime (mops md utc local) (mkOper11 (VStr fmt) (VBool utc) VNone)).
+  cbn [f_custom_parse_format f_utc_mode f_ref_point_str].
+  evl. rewrite R. evl. rewrite N. evl.
+  unfold SP. rewrite gen11_strptime. unfold m_tp_strptime. rewrite S.
+  destruct (strptime STRFTIME_TABLE md (cli_cfg utc local) text fmt) as [q|e].
+  - unfold of_pres. destruct (ptp_to_tp q) as [p|]; [|reflexivity].
+    evl. destruct utc; evl; [destruct (m_to_utc md (p, None))|]; reflexivity.
+  - destruct e; reflexivity.
+Qed.
+
 (* ---------- the runners of the Example (Props/C19Code.v) ---------- *)
 Definition run_shift (md : mode) (utc : bool) (local : Z * Z) (text : string) (offs : list string)
   (pf : option string) : cres :=
